@@ -133,11 +133,11 @@ def run(ctx):
     s2 = [path_sig(p)[1] for p in nonpanic(walk(cf))]
     ctx.check("C19-R3", "DottedHex element formatter is hexadecimal", len(s2) == 1 and re.search(r"Argument::new_(lower|upper)_hex\(", s2[0]) is not None, "DottedHex elements are not formatted in hexadecimal: %s" % s2, where(cf))
     g = A.fn("<wtransport::tls::Sha256Digest as std::str::FromStr>::from_str")
-    s2 = [path_sig(p)[1] for p in nonpanic(walk(g))]
-    gc = A.fn("<wtransport::tls::Sha256Digest as std::str::FromStr>::from_str::{closure#0}")
-    s3 = [path_sig(p)[1] for p in nonpanic(walk(gc))]
-    ctx.check("C19-R3", "FromStr tries both formats", s2 == ["return Result::or_else(Sha256Digest::from_str_fmt(s,Sha256DigestFmt::BytesArray),closure:<Sha256Digest as FromStr>::{closure#0})"] and s3 == ["return Sha256Digest::from_str_fmt(s,Sha256DigestFmt::DottedHex)"],
-              "Sha256Digest::from_str does not try BytesArray then DottedHex: %s %s" % (s2, s3), where(g))
+    sg = sorted(path_sig(p) for p in nonpanic(walk(g)))
+    BA = "Sha256Digest::from_str_fmt(s,Sha256DigestFmt::BytesArray)"
+    want = sorted([((BA + " ok",), "return Result::Ok(ok(%s))" % BA), ((BA + " fails",), "return Sha256Digest::from_str_fmt(s,Sha256DigestFmt::DottedHex)")])
+    ctx.check("C19-R3", "FromStr tries both formats", sg == want,
+              "Sha256Digest::from_str is not `from_str_fmt(s, BytesArray)` and, when that fails, `from_str_fmt(s, DottedHex)`: %s" % sg, where(g))
 
     ctx.rule("C19-R5", "a generated certificate is accepted by pinning configured with its own hash, however the pin set was built")
     from rules import shared
